@@ -387,3 +387,27 @@ Proof.
   split; [vm_compute; reflexivity|]. split; [vm_compute; lia|]. split; [vm_compute; reflexivity|].
   split; [vm_compute; eexists; split; reflexivity|]. split; vm_compute; reflexivity.
 Qed.
+
+(** LatinSquare over a 3-level and a 2-level factor: segments of three trials; in
+    the r-th segment the second factor is the first one rotated by r (mod 2) *)
+Definition x3 : ffactor :=
+  {| ff_name := String.EmptyString; ff_hidden := false; ff_levels := [xlvl []; xlvl []; xlvl []]; ff_window := None; ff_complex := false |}.
+Definition ex_latin : flat :=
+  {| fl_design := [x3; xsimple]; fl_act := [0; 1];
+     fl_crossings := [[0; 1]]; fl_sustains := [1]; fl_weights := [1]; fl_sizes := [6];
+     fl_preambles := [0]; fl_alignment := EqualPreamble; fl_alignment_preamble := 0;
+     fl_min_trials := 0; fl_trials := 6; fl_rcc := true; fl_exclude := [];
+     fl_excluded_derived := [];
+     fl_constraints := [FCross; FConsistency; FLatin [0; 1]];
+     fl_errors_fail := false |}.
+
+Example ex_latin_facts :
+  in_f1 ex_latin = true /\ 0 < T ex_latin /\
+  (exists b, compile ex_latin = COk b /\ b_fresh b = 159%Z) /\
+  length (all_valid (code_sem ex_latin)) = 36 /\
+  hd [] (all_valid (code_sem ex_latin)) =
+    [[Some 2; Some 1; Some 0; Some 2; Some 1; Some 0]; [Some 0; Some 1; Some 0; Some 1; Some 0; Some 1]].
+Proof.
+  split; [vm_compute; reflexivity|]. split; [vm_compute; lia|].
+  split; [vm_compute; eexists; split; reflexivity|]. split; vm_compute; reflexivity.
+Qed.
